@@ -14,7 +14,7 @@
    Statements about "the configured tests / steps" are made about the
    configuration the accepted text defines (C08: [text_conforms] and the value
    of ${regress}, of regress-<test>-parallel, of parallel, the canvas step list). *)
-From Robsd Require Import Conf.SchedDefs Conf.SchedSpec Conf.ConfTie Conf.SchedProofs.
+From Robsd Require Import Conf.ConfSpec Conf.ConfTrack Conf.SchedDefs Conf.SchedSpec Conf.ConfTie Conf.SchedProofs Conf.SchedTrack.
 From RobsdGen Require Import Gen_Conf.
 From Coq Require Import String.
 Local Open Scope N_scope.
@@ -116,6 +116,34 @@ Theorem C10_canvas_order : forall E c,
   ++ [mk_sstep [101; 110; 100] (script_argv (tables_of CANVAS) (fst (t_canvas_end (tables_of CANVAS))) [101; 110; 100]) false].
 Proof. exact raw_canvas. Qed.
 Print Assumptions C10_canvas_order.
+
+(* ------------------------------------------------------------------ in terms of the accepted text *)
+(* [es] are the entries the accepted text spells (C08_accept_iff_conforms: text_conforms = the text lexes
+   into their spelling and [run_entries] defines the configuration).  Then
+     - the tests listed are the paths of the regress entries, each as often as written,
+     - those without a no-parallel option (on any entry of that path) come first, flagged parallel, in the
+       order written; the others follow in the order written,
+     - with `parallel no` none is parallel and the order is the one written. *)
+Theorem C10_regress_schedule_of_entries : forall E es c,
+  run_entries E TRg (cfg_init TRg) es = Some c ->
+  let l := flat_map regress_path_of es in
+  names (snd (raw_steps E TRg (after_parse TRg c))) =
+    map fst (rows_before (t_steps TRg)) ++ filter (entries_par E es) l
+    ++ filter (fun n => negb (entries_par E es n)) l ++ map fst (rows_after (t_steps TRg))
+  /\ map ss_par (snd (raw_steps E TRg (after_parse TRg c))) =
+    map (fun _ => false) (rows_before (t_steps TRg)) ++ map (fun _ => true) (filter (entries_par E es) l)
+    ++ map (fun _ => false) (filter (fun n => negb (entries_par E es n)) l) ++ map (fun _ => false) (rows_after (t_steps TRg)).
+Proof. exact regress_schedule_of_entries. Qed.
+Print Assumptions C10_regress_schedule_of_entries.
+
+(* canvas: the step entries in the order written, with the last command given and the parallel option, then end *)
+Theorem C10_canvas_schedule_of_entries : forall E es c,
+  run_entries E (tables_of CANVAS) (cfg_init (tables_of CANVAS)) es = Some c ->
+  snd (raw_steps E (tables_of CANVAS) (after_parse (tables_of CANVAS) c)) =
+  map (fun s => mk_sstep (cs_name s) (cs_command s) (cs_parallel s)) (flat_map (step_of_entry (tables_of CANVAS)) es)
+  ++ [mk_sstep [101; 110; 100] (script_argv (tables_of CANVAS) (fst (t_canvas_end (tables_of CANVAS))) [101; 110; 100]) false].
+Proof. exact canvas_schedule_of_entries. Qed.
+Print Assumptions C10_canvas_schedule_of_entries.
 
 (* ------------------------------------------------------------------ resolvable *)
 (* every listed name is found by the step runner, in the same schedule *)
